@@ -577,7 +577,8 @@ class Spaces:
             og = o.origin
             if og[0] == "call" and og[1] in ("np.empty", "np.zeros", "np.full") and og[2] and og[2][0][0] == "tup" and len(og[2][0]) >= 2:
                 return (self.dim(og[2][0][1]), self.dimT(og[2][0][2]) if len(og[2][0]) >= 3 else "-")
-            if og[0] == "call" and og[1] in (".copy", "np.empty_like", "np.zeros_like", "copy.copy", "np.array") and og[2]:
+            if og[0] == "call" and og[1] in (".copy", "np.empty_like", "np.zeros_like", "np.ones_like", "np.full_like", "copy.copy", "copy.deepcopy",
+                                             "np.array", "np.copy") and og[2]:
                 return self.typ(og[2][0])
             return None
         if k in ("idx", "ld"):
@@ -667,7 +668,7 @@ class Spaces:
                     else:
                         self.checked.append(show(P.norm(t)))
                 return b_ or a_
-            if t[1] in (".copy", "np.asarray", "np.array") and t[2]:
+            if t[1] in (".copy", "np.asarray", "np.array", "np.copy", "np.asanyarray", "np.ascontiguousarray", "np.asfortranarray") and t[2]:
                 return self.typ(t[2][0])
             return None
         return None
